@@ -73,7 +73,9 @@ SUBSETS = U.subsets
 # (ticket keys such as @OR-1234, @NOT.ready, os=Not): operands, never operators
 KW_UNIVERSE = ["OR-1", "or-1", "NOT.x", "not.x", "k=And", "k=and", "a", "Or"]
 U_KW = Universe(KW_UNIVERSE)
-UNIVERSES = {"std": U, "kw": U_KW}
+# --wip adds the term @wip to the command-line terms
+U_WIP = Universe(["a", "b", "c", "a.x", "ab", "bx", "wip", "k-v=1"])
+UNIVERSES = {"std": U, "kw": U_KW, "wip": U_WIP}
 KW_OPERANDS = [["tag", t] for t in KW_UNIVERSE] + [["tag", "AND"], ["tag", "Not"], ["tag", "x-and-y"], ["tag", "AND-OR"],
                ["glob", "OR-*"], ["glob", "or-*"], ["glob", "NOT.?"], ["glob", "k=A*"], ["glob", "*=and"], ["glob", "O?"],
                ["glob", "*-1"], ["glob", "[Nn]ot.x"]]
@@ -189,6 +191,8 @@ def valid_case(case):
         if case["kind"] == "expr":
             return ((case["ast"] == ["true"] or valid_ast(case["ast"])) and case["form"] in ("text", "list")
                     and case.get("u", "std") in UNIVERSES)
+        if case["kind"] == "cmdline":
+            return (case["ast"] == ["true"] or valid_ast(case["ast"])) and case.get("wip") in (None, "first", "last")
         if case["kind"] == "glob":
             return isinstance(case.get("pattern"), str) and bool(case["pattern"])
         if case["kind"] == "placeholder":
@@ -211,6 +215,8 @@ def check(case):
         return check_placeholder(case)
     if kind == "glob":
         return check_glob(case)
+    if kind == "cmdline":
+        return check_cmdline(case)
     raise ValueError(kind)
 
 
@@ -335,6 +341,44 @@ def render_template(template, variant, form):
     if form != "list":
         parts = [parts]
     return [p.replace("@" + _SENTINEL, PLACEHOLDER).replace(_SENTINEL, PLACEHOLDER) for p in parts]
+
+
+def check_cmdline(case):
+    """The command-line route: every term is one --tags option of a real Configuration (protocol v2);
+    --wip adds the term @wip.  All terms are AND-ed, each term keeps its own meaning."""
+    from behave.configuration import Configuration
+    from behave.tag_expression import TagExpressionProtocol
+    from behave.tag_expression.parser import TagExpressionError
+    res = CaseResult()
+    ast, variant, wip = case["ast"], case["v"], case.get("wip")
+    terms = tagref.render_v2_terms(ast, variant)
+    args = ["--tags=" + t for t in terms]
+    final = ast
+    if wip:
+        args = (["--wip"] + args) if wip == "first" else (args + ["--wip"])
+        final = ["and", ast, ["tag", "wip"]] if ast != ["true"] else ["tag", "wip"]
+    uni = U_WIP
+    want = uni.expected(final)
+    res.evals = len(uni.subsets)
+    common_labels(res, ast, variant, "list")
+    res.label("command-line", "command-line:terms=%d" % min(len(terms), 3))
+    if wip:
+        res.label("command-line:--wip")
+    try:
+        try:
+            config = Configuration(list(args), load_config=False, tag_expression_protocol=TagExpressionProtocol.V2)
+        except TagExpressionError as e:
+            res.fail("C07.command-line.rejected", "command line %r is rejected: %s" % (args, _one_line(e)), args=args)
+            return res
+        got = uni.observed(config.tag_expression)
+        diff = uni.first_diff(want, got)
+        if diff:
+            res.fail("C07.command-line.truth-table",
+                     "command line %r gives %r: for tags %s the AND of the terms%s is %s, check() says %s"
+                     % (args, config.tag_expression, diff[0], " and @wip" if wip else "", diff[1], diff[2]), args=args)
+    finally:
+        TagExpressionProtocol.use(TagExpressionProtocol.DEFAULT)
+    return res
 
 
 def check_placeholder(case):
@@ -486,6 +530,20 @@ def kw_expr_st():
                      ast_st(KW_OPERANDS, max_leaves=5), VARIANT_ST, st.sampled_from(["text", "text", "list"]))
 
 
+def cmdline_st():
+    return st.builds(lambda a, v, w: {"kind": "cmdline", "ast": a, "v": v, "wip": w},
+                     ast_st(ENUM_OPERANDS + [["tag", "wip"], ["tag", "k-v=1"]], max_leaves=6), VARIANT_ST,
+                     st.sampled_from([None, "first", "last", "last"]))
+
+
+def cmdline_enum():
+    for ast in enumerate_trees(ENUM_OPERANDS_SMALL + [["tag", "wip"]], 1, 4):
+        for wip in (None, "first", "last"):
+            yield {"kind": "cmdline", "ast": ast, "v": 0, "wip": wip}
+    for wip in ("first", "last"):
+        yield {"kind": "cmdline", "ast": ["true"], "v": 0, "wip": wip}
+
+
 def kw_enum():
     for ast in enumerate_trees(KW_OPERANDS, 1, 3):
         for case in expr_cases([ast], text_variants=[0, 1], list_variants=[0]):
@@ -582,6 +640,8 @@ def explore(rec):
     rec.enum("placeholder/small-configs-x-templates", placeholder_enum(ENUM_OPERANDS, 3 if quick else 4))
     rec.hyp("placeholder/random", placeholder_st(), 6000 if quick else 120000)
     rec.enum("escaped-operands", escaped_cases())
+    rec.enum("command-line/trees<=4-nodes/with-and-without---wip", cmdline_enum())
+    rec.hyp("command-line/random", cmdline_st(), 4000 if quick else 100000)
     rec.enum("operator-like-tag-names/trees<=3-nodes", kw_enum())
     rec.hyp("operator-like-tag-names/random", kw_expr_st(), 4000 if quick else 100000)
     rec.enum("wildcard-patterns<=%d x all tags<=3" % (4 if quick else 5), glob_cases(4 if quick else 5))
@@ -592,7 +652,7 @@ def required_labels(tier):
             "rendering:at", "rendering:extra-parens", "rendering:extra-blanks", "operators>=2", "negation",
             "depth:3", "depth:5", "placeholder:substituted", "placeholder:no-command-line-tags",
             "escaped-wildcard", "escaped-literal", "glob-edge", "glob-edge:overlap-candidate",
-            "operator-like-tag-names"] + ["placeholder:" + v for v in VIAS]
+            "operator-like-tag-names", "command-line", "command-line:--wip", "command-line:terms=3"] + ["placeholder:" + v for v in VIAS]
 
 
 KNOWN_PREDICATES = {}
